@@ -558,11 +558,26 @@ def r5_statistics(ctx):
         raise Undecided("fit_perform: the statistics row is not a list "
                         "comprehension over the column table")
     tabname = norm(row0.value.generators[0].iter)
+    tabiter = tabname
+    tabkind = "pairs"
+    it0 = row0.value.generators[0].iter
+    if isinstance(it0, ast.Call) and isinstance(it0.func, ast.Attribute) \
+            and it0.func.attr in ("values", "items") and not it0.args:
+        tabname = norm(it0.func.value)
+        tabkind = it0.func.attr
     rowvar = norm(row0.targets[0])
     dl = None
     for st in walk_no_nested(fp_, False):
         if isinstance(st, ast.Assign) and norm(st.targets[0]) == tabname:
             dl = st.value
+    if tabkind != "pairs":
+        # an insertion-ordered dict literal {name: function}
+        if not isinstance(dl, ast.Dict) or any(k is None for k in dl.keys):
+            raise Undecided(f"{tabname} is not a literal table of (name, "
+                            "function) pairs")
+        dl = ast.copy_location(ast.List(elts=[
+            ast.copy_location(ast.Tuple(elts=[k, v], ctx=ast.Load()), k)
+            for k, v in zip(dl.keys, dl.values)], ctx=ast.Load()), dl)
     if not isinstance(dl, (ast.List, ast.Tuple)) or not all(
             isinstance(e, (ast.List, ast.Tuple)) and len(e.elts) == 2
             for e in dl.elts):
@@ -620,7 +635,7 @@ def r5_statistics(ctx):
                 row = s.value
         ok = False
         if isinstance(row, ast.ListComp) and len(row.generators) == 1 and \
-                norm(row.generators[0].iter) == tabname and \
+                norm(row.generators[0].iter) == tabiter and \
                 not row.generators[0].ifs and isinstance(row.elt, ast.Call) \
                 and call_name(row.elt) == "str" and isinstance(
                     row.elt.args[0], ast.Call):
@@ -629,7 +644,10 @@ def r5_statistics(ctx):
             fexpr = norm(inner.func)
             cur = norm(lp.target)
             if isinstance(g.target, ast.Name):
-                ok = fexpr == f"{g.target.id}[1]"
+                ok = fexpr == (g.target.id if tabkind == "values"
+                               else f"{g.target.id}[1]")
+            elif tabkind == "values":
+                ok = False
             elif isinstance(g.target, ast.Tuple) and len(g.target.elts) == 2:
                 ok = fexpr == norm(g.target.elts[1])
             ok = ok and [norm(a) for a in inner.args] == [cur]
